@@ -422,6 +422,25 @@ def api_case(rng):
     return "tapi " + " ".join(ops)
 
 
+def extended_note_cases():
+    arts = [Cmd("Q", Num(n)) for n in range(1, 9)] + [Cmd("q", Num(n)) for n in range(1, 5)]
+    notes = [("L", Num(4), 0), ("L", Num(8), 1), ("L", Num(8), 0), ("L", Num(3), 0), ("F", Num(9), 1)]
+    inter1 = [Cmd("x", "vol", Num(10)), Cmd("x", "ins", Num(5)), Cmd("x", "pan", Num(3)), Cmd("o", Num(5)), Cmd(">"), Cmd("<"),
+              Cmd("l", ("L", Num(8), 0))]
+    inters = [[]] + [[a] for a in inter1] + [[a, b] for a in inter1 for b in inter1]
+    t4, t16, td, t8d = Cmd("t", ("L", Num(4), 0)), Cmd("t", ("L", Num(16), 0)), Cmd("t", ("D", 0)), Cmd("t", ("L", Num(8), 1))
+    sl, rr = Cmd("S"), Cmd("R", ("F", Num(2), 0))
+    gr = Cmd("g", 3, "n", ("F", Num(2), 0))
+    tails = [[t4], [t16], [td], [sl], [t4, t8d], [td, td], [t4, sl], [sl, t4], [rr], [t4, rr], [gr], [sl, rr]]
+    for art in arts:
+        for nd in notes:
+            note = Cmd("n", 2, "n", nd)
+            for tail in tails:
+                for inter in inters:
+                    for pos in range(len(tail) if inter else 1):
+                        yield [art, note] + tail[:pos] + inter + tail[pos:] + [Cmd("n", 4, "n", ("L", Num(4), 0))]
+
+
 def text_case(lines, cmd="mml"):
     return "%s %s" % (cmd, " ".join(hx(l) for l in lines))
 
@@ -479,6 +498,15 @@ def cases(rng, tier):
             for pat in ["A o%s c", "A o%s < c", "A o%s > c", "A o%s >> c", "A o%s << c", "A o%s <", "A o%s >>", "A c:%s", "A c:%s.", "A c:%s..", "A c:%s...",
                         "A l:%s. c", "A r:%s. ^:%s..", "A (%s", "A )%s", "A (%s )%s", "A D40 o%s c", "A o%s ~c", "A c R:%s.", "A \\:%s.", "A c%s.", "A l%s.. c"]:
                 yield Case(text_case([pat.replace("%s", n)]), ("exh-int-edge", "number-spelling"), "exh-int-edge")
+    # the extended note: Q1..Q8 / q1..q4 x note length x 0-2 commands that are not timed, written before the
+    # first or the second of 1-2 ties / slurs / a reverse rest / a grace note.  The oracle prescribes the key-on
+    # time of the whole extended note (Spec/MmlMeaning `Item`); quick tier: every 10th case, offset by the seed.
+    # (the cases with an event-recording command before the FIRST of two ties / tie + slur are the known finding D24)
+    off = rng.randrange(10)
+    for k, cmds in enumerate(extended_note_cases()):
+        if quick and k % 10 != off:
+            continue
+        yield Case(req_of(cmds), tags_of(cmds) + ["exh-extended-note"], "exh-extended-note")
     # ---- seeded random typed sequences (with AST)
     n = 9000 if quick else 60000
     for i in range(n):
